@@ -174,6 +174,10 @@ def check_C08(p, stream, tk, ST=None, SDS=None, DS=None):
     r = mk(ST, p).tokenize(SDS(stream), callback=lambda d, a, b: cb.append((list(d), a, b)))
     if cb != lst:
         return "callback mode %r differs from list mode %r" % (cb, lst)
+    cb2 = []
+    mk(ST, p).tokenize(SDS(stream), callback=lambda d, a, b: (cb2.append((list(d), a, b)), len(cb2))[1])
+    if cb2 != lst:
+        return "callback mode with a callback that returns a count delivers %r, list mode %r" % (cb2, lst)
     # a generator obtained first and drained after the tokenizer was used for something else
     t2 = mk(ST, p)
     g2 = t2.tokenize(SDS(stream), generator=True)
@@ -217,8 +221,8 @@ def check_C20(p, stream, tk, ST=None, SDS=None, first=None, consume=None):
 
 def grid(quick=True):
     for M in (1, 2, 3, 4):
-        for m in range(1, M + 1):
-            for s in range(0, M):
+        for m in range(0, M + 1):          # min_length 0 is rejected by a correct constructor (skipped by the search then)
+            for s in range(-1, M):
                 for mode in (0, 2, 4, 6):
                     for i0, ims in ((0, 0), (2, 1), (3, 2), (2, 0), (1, 2), (0, 2)):
                         if i0 >= M:
@@ -323,6 +327,23 @@ def pre_check(pid):
             if Counting.asked > nblocks * 10:
                 return "split(max_read=%r): %d samples requested from the input in total, the limit is %d" % (
                     nblocks * 0.01, Counting.asked, nblocks * 10)
+        # overlapping windows: when a region is yielded the input has not been asked for more than the window
+        # that decides it
+        for hop in (0.005, 0.002):
+            Counting.asked = 0
+            src = Counting(sig, 1000, 2, 1)
+            rd = AudioReader(src, block_dur=0.01, hop_dur=hop)
+            rd.open()
+            H = int(hop * 1000)
+            for r in split(rd, min_dur=0.02, max_dur=0.2, max_silence=0.01, energy_threshold=50):
+                first_win = round(r.start * 100)       # start is reported in units of the 10 ms window duration
+                nwin = len(r) // 10                    # a region is the concatenation of its (overlapping) windows
+                deciding_max = first_win + nwin        # the window after the region's last one (tolerated silence is inside)
+                if Counting.asked > 10 + deciding_max * H:
+                    return "split() on overlapping windows (hop %r): %d samples requested from the input when the region at %r " \
+                           "was yielded; the window deciding it ends at sample %d at the latest" % (
+                               hop, Counting.asked, r.start, 10 + deciding_max * H)
+                break
         return None
     if pid == "C20":
         data = bytes(range(1, 41))
@@ -353,6 +374,16 @@ def pre_check(pid):
             if got != ref:
                 return "recorder split number %d (after rewind%s): %d regions, expected %d" % (
                     k + 1, "/close/open" if k == 3 else "", len(got), len(ref))
+        # a recorder whose max_read is longer than the stream: end of stream reached, rewound, split again
+        for mr in (5, 1.5):
+            rec = AudioReader(sig, block_dur=0.01, record=True, max_read=mr, sr=1000, sw=2, ch=1)
+            rec.open()
+            for k in range(3):
+                got = desc(split(rec, **{k_: v_ for k_, v_ in kw.items() if k_ != "analysis_window"}))
+                if got != ref:
+                    return "recorder with max_read=%r (longer than the stream), split number %d: %d regions, expected %d" % (
+                        mr, k + 1, len(got), len(ref))
+                rec.rewind()
         for use in (None, 0):
             v = AudioEnergyValidator(50, 2, 1) if use is None else AudioEnergyValidator(50, 2, 2, use_channel=use)
             w1, w2 = (loud, quiet) if use is None else (loud + loud, quiet + quiet)
@@ -379,11 +410,31 @@ def search(pid, budget, maxlen):
     ST, SDS, DS = load()
     t0 = time.time()
     n = 0
-    if pid == "C02":
+    if pid in ("C01", "C02", "C03", "C04", "C08", "C20"):
+        # every tokenizer statement is about the tuples the constructor accepts; C02 says which those are
         w = ctor_check(ST)
-        if w:
+        if w and pid == "C02":
             return w, 1
-    params = list(grid())
+        if w and w["observed"] == "accepted":
+            # a tuple that should have been rejected: does it make the tokenizer break THIS property?
+            m, M, s, i0, ims, mode = w["args"]
+            p = {"m": m, "M": M, "s": s, "i0": i0, "ims": ims, "mode": mode}
+            for L in range(0, 9):
+                for bits in itertools.product("Aa", repeat=L):
+                    r = evaluate(pid, p, "".join(bits), ST, SDS, DS,
+                                 {"first": "AAAA", "consume": None} if pid == "C20" else None)
+                    if r:
+                        return {"kind": "tokenizer", "pid": pid, "params": p, "stream": "".join(bits), "observed":
+                                "constructor accepts (min_length=%d, max_length=%d, max_continuous_silence=%d, init_min=%d, mode=%d) "
+                                "and then: %s" % (m, M, s, i0, mode, r),
+                                **({"first": "AAAA", "consume": None} if pid == "C20" else {})}, 1
+    params = []
+    for p in grid():
+        try:
+            mk(ST, p)
+            params.append(p)
+        except ValueError:
+            pass            # tuples the constructor rejects are outside every statement but C02's (ctor_check)
     firsts = ("AAAA", "aaAAAAA", "A", "AaA", "AAAAa", "aA", "aaAaA")
     for phase in (0, 1):
       for L in range(0, (maxlen if phase == 0 else min(maxlen, 8)) + 1):
